@@ -1,7 +1,791 @@
-//! C19 — not built yet.
-use vcore::Ctx;
+//! C19 — introspection modes: disabled at either level => no schema metadata in any response; introspection-only
+//! at either level => no user resolver runs; `__typename` always resolves.
+use async_graphql::dynamic;
+use async_graphql::{Request, Response};
+use futures_util::StreamExt;
+use serde_json::Value as J;
+use std::sync::{Arc, Mutex};
+use vcore::{Case, Ctx, Src};
+use vgql::ast::*;
+use vgql::print::print_plain;
 
-pub fn run(_ctx: &mut Ctx) {
-    eprintln!("C19: check not built yet");
-    std::process::exit(2);
+pub type Log = Arc<Mutex<Vec<String>>>;
+
+// Names that exist only in the schemas (type / field / argument / enum value names and one description) and never in
+// data: documents never select them, resolvers never return them. All contain "sentinel" (any case).
+const SENTINEL: &str = "sentinel";
+
+// ------------------------------------------------------------------------------------------------------------
+// static schema with a federation entity
+
+#[allow(dead_code)]
+mod fed {
+    use super::Log;
+    use async_graphql::*;
+    use futures_util::stream::{self, Stream};
+
+    fn log(ctx: &Context<'_>, kind: &str) {
+        let path = ctx.path_node.as_ref().map(|p| p.to_string()).unwrap_or_default();
+        ctx.data_unchecked::<Log>().lock().unwrap().push(format!("{} {}", kind, path));
+    }
+
+    pub struct Widget {
+        pub id: String,
+    }
+    #[Object]
+    impl Widget {
+        async fn id(&self, ctx: &Context<'_>) -> Option<ID> {
+            log(ctx, "field");
+            Some(ID(self.id.clone()))
+        }
+        async fn gauge(&self, ctx: &Context<'_>) -> Option<i32> {
+            log(ctx, "field");
+            Some(7)
+        }
+    }
+
+    #[derive(Enum, Copy, Clone, Eq, PartialEq)]
+    pub enum SentinelEnumOmega {
+        SentinelValueOne,
+        Two,
+    }
+
+    #[derive(InputObject)]
+    pub struct SentinelInputPsi {
+        pub sentinel_input_field_rho: Option<i32>,
+    }
+
+    pub struct Query;
+    /// Sentinel description upsilon
+    #[Object]
+    impl Query {
+        async fn count(&self, ctx: &Context<'_>) -> Option<i32> {
+            log(ctx, "query");
+            Some(3)
+        }
+        async fn widget(&self, ctx: &Context<'_>, id: Option<ID>) -> Option<Widget> {
+            log(ctx, "query");
+            Some(Widget { id: id.map_or("w0".to_string(), |i| i.0) })
+        }
+        async fn widgets(&self, ctx: &Context<'_>) -> Option<Vec<Widget>> {
+            log(ctx, "query");
+            Some(vec![Widget { id: "w1".into() }, Widget { id: "w2".into() }])
+        }
+        async fn sentinel_field_chi(&self, ctx: &Context<'_>, sentinel_arg_phi: Option<SentinelInputPsi>) -> Option<SentinelEnumOmega> {
+            log(ctx, "query");
+            let _ = sentinel_arg_phi;
+            None
+        }
+        #[graphql(entity)]
+        async fn find_widget(&self, ctx: &Context<'_>, id: ID) -> Option<Widget> {
+            log(ctx, "entity");
+            Some(Widget { id: id.0 })
+        }
+    }
+
+    pub struct Mutation;
+    #[Object]
+    impl Mutation {
+        async fn bump(&self, ctx: &Context<'_>, by: Option<i32>) -> Option<i32> {
+            log(ctx, "mutation");
+            Some(by.unwrap_or(1) + 1)
+        }
+        async fn make_widget(&self, ctx: &Context<'_>) -> Option<Widget> {
+            log(ctx, "mutation");
+            Some(Widget { id: "w9".into() })
+        }
+    }
+
+    pub struct Subscription;
+    #[Subscription]
+    impl Subscription {
+        async fn ticks(&self, ctx: &Context<'_>) -> impl Stream<Item = Option<i32>> {
+            log(ctx, "subscription");
+            stream::iter(vec![Some(1), Some(2)])
+        }
+        async fn widget_stream(&self, ctx: &Context<'_>) -> impl Stream<Item = Option<Widget>> {
+            log(ctx, "subscription");
+            stream::iter(vec![Some(Widget { id: "w5".into() })])
+        }
+    }
+
+    pub type S = Schema<Query, Mutation, Subscription>;
+}
+
+#[derive(Clone, Copy, PartialEq, Eq, Debug)]
+enum Mode {
+    Enabled,
+    Disabled,
+    Only,
+}
+const MODES: [Mode; 3] = [Mode::Enabled, Mode::Disabled, Mode::Only];
+
+fn static_schema(mode: Mode, log: &Log) -> fed::S {
+    let b = async_graphql::Schema::build(fed::Query, fed::Mutation, fed::Subscription).enable_federation().data(log.clone());
+    match mode {
+        Mode::Enabled => b,
+        Mode::Disabled => b.disable_introspection(),
+        Mode::Only => b.introspection_only(),
+    }
+    .finish()
+}
+
+// ------------------------------------------------------------------------------------------------------------
+// dynamic schema of the same shape
+
+struct W(String);
+
+fn dyn_log(log: &Log, ctx: &dynamic::ResolverContext<'_>, kind: &str) {
+    let path = ctx.ctx.path_node.as_ref().map(|p| p.to_string()).unwrap_or_default();
+    log.lock().unwrap().push(format!("{} {}", kind, path));
+}
+
+fn dynamic_schema(mode: Mode, log: &Log) -> dynamic::Schema {
+    use async_graphql::Value;
+    use dynamic::*;
+    let l = log.clone();
+    let l2 = log.clone();
+    let widget = Object::new("Widget")
+        .field(Field::new("id", TypeRef::named(TypeRef::ID), move |ctx| {
+            dyn_log(&l, &ctx, "field");
+            let id = ctx.parent_value.downcast_ref::<W>().map(|w| w.0.clone()).unwrap_or_default();
+            FieldFuture::new(async move { Ok(Some(Value::from(id))) })
+        }))
+        .field(Field::new("gauge", TypeRef::named(TypeRef::INT), move |ctx| {
+            dyn_log(&l2, &ctx, "field");
+            FieldFuture::new(async move { Ok(Some(Value::from(7))) })
+        }))
+        .key("id");
+    let omega = Enum::new("SentinelEnumOmega").item("SENTINEL_VALUE_ONE").item("TWO");
+    let psi = InputObject::new("SentinelInputPsi").field(InputValue::new("sentinelInputFieldRho", TypeRef::named(TypeRef::INT)));
+    let (q1, q2, q3, q4) = (log.clone(), log.clone(), log.clone(), log.clone());
+    let query = Object::new("Query")
+        .description("Sentinel description upsilon")
+        .field(Field::new("count", TypeRef::named(TypeRef::INT), move |ctx| {
+            dyn_log(&q1, &ctx, "query");
+            FieldFuture::new(async move { Ok(Some(Value::from(3))) })
+        }))
+        .field(
+            Field::new("widget", TypeRef::named("Widget"), move |ctx| {
+                dyn_log(&q2, &ctx, "query");
+                let id = ctx.args.get("id").and_then(|v| v.string().ok().map(str::to_string)).unwrap_or("w0".into());
+                FieldFuture::new(async move { Ok(Some(FieldValue::owned_any(W(id)))) })
+            })
+            .argument(InputValue::new("id", TypeRef::named(TypeRef::ID))),
+        )
+        .field(Field::new("widgets", TypeRef::named_list("Widget"), move |ctx| {
+            dyn_log(&q3, &ctx, "query");
+            FieldFuture::new(async move { Ok(Some(FieldValue::list(vec![FieldValue::owned_any(W("w1".into())), FieldValue::owned_any(W("w2".into()))]))) })
+        }))
+        .field(
+            Field::new("sentinelFieldChi", TypeRef::named("SentinelEnumOmega"), move |ctx| {
+                dyn_log(&q4, &ctx, "query");
+                FieldFuture::new(async move { Ok(None::<FieldValue>) })
+            })
+            .argument(InputValue::new("sentinelArgPhi", TypeRef::named("SentinelInputPsi"))),
+        );
+    let (m1, m2) = (log.clone(), log.clone());
+    let mutation = Object::new("Mutation")
+        .field(
+            Field::new("bump", TypeRef::named(TypeRef::INT), move |ctx| {
+                dyn_log(&m1, &ctx, "mutation");
+                let by = ctx.args.get("by").and_then(|v| v.i64().ok()).unwrap_or(1);
+                FieldFuture::new(async move { Ok(Some(Value::from(by + 1))) })
+            })
+            .argument(InputValue::new("by", TypeRef::named(TypeRef::INT))),
+        )
+        .field(Field::new("makeWidget", TypeRef::named("Widget"), move |ctx| {
+            dyn_log(&m2, &ctx, "mutation");
+            FieldFuture::new(async move { Ok(Some(FieldValue::owned_any(W("w9".into())))) })
+        }));
+    let (s1, s2) = (log.clone(), log.clone());
+    let subscription = Subscription::new("Subscription")
+        .field(SubscriptionField::new("ticks", TypeRef::named(TypeRef::INT), move |ctx| {
+            dyn_log(&s1, &ctx, "subscription");
+            SubscriptionFieldFuture::new(async move { Ok(futures_util::stream::iter(vec![Ok(Value::from(1)), Ok(Value::from(2))])) })
+        }))
+        .field(SubscriptionField::new("widgetStream", TypeRef::named("Widget"), move |ctx| {
+            dyn_log(&s2, &ctx, "subscription");
+            SubscriptionFieldFuture::new(async move { Ok(futures_util::stream::iter(vec![Ok(FieldValue::owned_any(W("w5".into())))])) })
+        }));
+    let e = log.clone();
+    let b = Schema::build("Query", Some("Mutation"), Some("Subscription"))
+        .register(widget)
+        .register(omega)
+        .register(psi)
+        .register(query)
+        .register(mutation)
+        .register(subscription)
+        .enable_federation()
+        .entity_resolver(move |ctx| {
+            dyn_log(&e, &ctx, "entity");
+            FieldFuture::new(async move {
+                let reps = ctx.args.try_get("representations")?.list()?;
+                let mut values = vec![];
+                for item in reps.iter() {
+                    let id = item.object()?.try_get("id")?.string()?.to_string();
+                    values.push(FieldValue::owned_any(W(id)).with_type("Widget"));
+                }
+                Ok(Some(FieldValue::list(values)))
+            })
+        });
+    match mode {
+        Mode::Enabled => b,
+        Mode::Disabled => b.disable_introspection(),
+        Mode::Only => b.introspection_only(),
+    }
+    .finish()
+    .expect("dynamic federation schema")
+}
+
+// ------------------------------------------------------------------------------------------------------------
+// the matrix
+
+#[derive(Clone, Copy, PartialEq, Eq, Debug)]
+enum Flavour {
+    Static,
+    Dynamic,
+}
+
+#[derive(Clone, Copy, Debug)]
+struct Cell {
+    schema: Mode,
+    request: Mode,
+    flavour: Flavour,
+    op: OpKind,
+}
+impl Cell {
+    fn disabled(&self) -> bool {
+        self.schema == Mode::Disabled || self.request == Mode::Disabled
+    }
+    fn only(&self) -> bool {
+        self.schema == Mode::Only || self.request == Mode::Only
+    }
+    fn name(&self) -> String {
+        format!("{:?}-schema:{:?}-request:{:?}-{}", self.flavour, self.schema, self.request, self.op.kw()).to_lowercase()
+    }
+}
+
+struct Servers {
+    log: Log,
+    st: Vec<fed::S>,
+    dy: Vec<dynamic::Schema>,
+}
+impl Servers {
+    fn new() -> Servers {
+        let log: Log = Default::default();
+        Servers { st: MODES.iter().map(|m| static_schema(*m, &log)).collect(), dy: MODES.iter().map(|m| dynamic_schema(*m, &log)).collect(), log }
+    }
+    /// all responses to the request (one for `execute`, every item of `execute_stream`) and the resolver log
+    fn run(&self, cell: Cell, text: &str, via_stream: bool) -> (Vec<Response>, Vec<String>) {
+        let req = Request::new(text);
+        let req = match cell.request {
+            Mode::Enabled => req,
+            Mode::Disabled => req.disable_introspection(),
+            Mode::Only => req.only_introspection(),
+        };
+        self.log.lock().unwrap().clear();
+        let i = MODES.iter().position(|m| *m == cell.schema).unwrap();
+        let resps = match (cell.flavour, via_stream) {
+            (Flavour::Static, false) => vec![vcore::det::block_on(self.st[i].execute(req))],
+            (Flavour::Static, true) => vcore::det::block_on(self.st[i].execute_stream(req).collect::<Vec<_>>()),
+            (Flavour::Dynamic, false) => vec![vcore::det::block_on(self.dy[i].execute(req))],
+            (Flavour::Dynamic, true) => vcore::det::block_on(self.dy[i].execute_stream(req).collect::<Vec<_>>()),
+        };
+        let log = std::mem::take(&mut *self.log.lock().unwrap());
+        (resps, log)
+    }
+}
+
+// ------------------------------------------------------------------------------------------------------------
+// documents
+
+#[derive(Clone, Copy)]
+struct Allow {
+    /// `_service { sdl }`
+    service: bool,
+    /// `_entities(...)`
+    entities: bool,
+    /// `__typename` directly on the operation's root
+    root_typename: bool,
+}
+
+struct GenDoc {
+    doc: Doc,
+    /// root response keys of `_service` / `_entities` selections
+    service_keys: Vec<String>,
+    entity_keys: Vec<String>,
+    /// selects `__schema` / `__type` (a schema that has introspection disabled may reject those at validation)
+    introspects: bool,
+    meta_fields: usize,
+    ordinary_fields: usize,
+    typenames: usize,
+    fragments: usize,
+}
+
+struct G {
+    next: u32,
+    out: GenDoc,
+    frags: Vec<FragDef>,
+}
+
+impl G {
+    /// a response key unique in the document: the field's own name where still free at this level, else an alias
+    fn keyed(&mut self, s: &mut dyn Src, used: &mut Vec<String>, name: &str) -> Field {
+        let mut f = Field::new(name);
+        if used.iter().any(|u| u == name) || s.chance(1, 3) {
+            self.next += 1;
+            f.alias = Some(Name::new(format!("k{}", self.next)));
+        }
+        used.push(f.key().to_string());
+        f
+    }
+    fn typename(&mut self, s: &mut dyn Src, used: &mut Vec<String>) -> Selection {
+        self.out.typenames += 1;
+        Selection::Field(self.keyed(s, used, "__typename"))
+    }
+    fn leafs(&mut self, s: &mut dyn Src, names: &[&str], typename: bool) -> SelSet {
+        let mut used = vec![];
+        let mut items = vec![];
+        for n in names {
+            if s.chance(2, 3) {
+                items.push(Selection::Field(self.keyed(s, &mut used, n)));
+            }
+        }
+        if typename && (items.is_empty() || s.chance(1, 2)) {
+            items.push(self.typename(s, &mut used));
+        }
+        if items.is_empty() {
+            items.push(Selection::Field(self.keyed(s, &mut used, names[0])));
+        }
+        SelSet::new(items)
+    }
+    fn widget_sel(&mut self, s: &mut dyn Src) -> SelSet {
+        let inner = self.leafs(s, &["id", "gauge"], true);
+        if s.chance(1, 4) {
+            self.out.fragments += 1;
+            return SelSet::new(vec![Selection::Inline(Inline { pos: Pos::default(), cond: Some(Name::new("Widget")), cond_pos: Pos::default(), directives: vec![], sel: inner })]);
+        }
+        inner
+    }
+    fn root_field(&mut self, s: &mut dyn Src, op: OpKind, allow: &Allow, used: &mut Vec<String>) -> Option<Selection> {
+        let str_val = |t: &str| PVal::new(Val::Str(t.to_string()));
+        match op {
+            OpKind::Query => {
+                let k = s.weighted(&[3, 2, 2, 2, 3, 3, 3, 3]);
+                let f = match k {
+                    0 if allow.root_typename => return Some(self.typename(s, used)),
+                    0 | 1 => {
+                        self.out.ordinary_fields += 1;
+                        self.keyed(s, used, "count")
+                    }
+                    2 => {
+                        self.out.ordinary_fields += 1;
+                        let mut f = self.keyed(s, used, "widget");
+                        if s.bool() {
+                            f.args.push((Name::new("id"), str_val("w3")));
+                        }
+                        f.sel = self.widget_sel(s);
+                        f
+                    }
+                    3 => {
+                        self.out.ordinary_fields += 1;
+                        let mut f = self.keyed(s, used, "widgets");
+                        f.sel = self.widget_sel(s);
+                        f
+                    }
+                    4 => {
+                        self.out.introspects = true;
+                        self.out.meta_fields += 1;
+                        let mut f = self.keyed(s, used, "__schema");
+                        let mut types = Field::new("types");
+                        types.sel = self.leafs(s, &["name"], true);
+                        let mut items = vec![Selection::Field(types)];
+                        if s.chance(1, 3) {
+                            let mut q = Field::new("queryType");
+                            q.sel = SelSet::new(vec![Selection::Field(Field::new("name"))]);
+                            items.push(Selection::Field(q));
+                        }
+                        if s.chance(1, 3) {
+                            items.push(self.typename(s, &mut vec![]));
+                        }
+                        f.sel = SelSet::new(items);
+                        f
+                    }
+                    5 => {
+                        self.out.introspects = true;
+                        self.out.meta_fields += 1;
+                        let mut f = self.keyed(s, used, "__type");
+                        let (name, sub) = *vcore::gens::pick(s, &[("Query", "fields"), ("Widget", "fields"), ("SentinelEnumOmega", "enumValues"), ("SentinelInputPsi", "inputFields"), ("Mutation", "fields"), ("Nope", "fields")]);
+                        f.args.push((Name::new("name"), str_val(name)));
+                        let mut inner = Field::new(sub);
+                        inner.sel = SelSet::new(vec![Selection::Field(Field::new("name"))]);
+                        let mut items = vec![Selection::Field(Field::new("name")), Selection::Field(inner)];
+                        if s.chance(1, 3) {
+                            items.push(self.typename(s, &mut vec![]));
+                        }
+                        f.sel = SelSet::new(items);
+                        f
+                    }
+                    6 if allow.service => {
+                        self.out.meta_fields += 1;
+                        let mut f = self.keyed(s, used, "_service");
+                        self.out.service_keys.push(f.key().to_string());
+                        let mut items = vec![Selection::Field(Field::new("sdl"))];
+                        if s.chance(1, 3) {
+                            items.push(self.typename(s, &mut vec![]));
+                        }
+                        f.sel = SelSet::new(items);
+                        f
+                    }
+                    7 if allow.entities => {
+                        self.out.meta_fields += 1;
+                        let mut f = self.keyed(s, used, "_entities");
+                        self.out.entity_keys.push(f.key().to_string());
+                        let n = 1 + s.choose(2);
+                        let reps = (0..n).map(|i| PVal::new(Val::Obj(vec![(Name::new("__typename"), str_val("Widget")), (Name::new("id"), str_val(&format!("e{}", i)))]))).collect();
+                        f.args.push((Name::new("representations"), PVal::new(Val::List(reps))));
+                        let mut items = vec![];
+                        if s.bool() {
+                            items.push(self.typename(s, &mut vec![]));
+                        }
+                        let on_widget = self.leafs(s, &["id", "gauge"], true);
+                        items.push(Selection::Inline(Inline { pos: Pos::default(), cond: Some(Name::new("Widget")), cond_pos: Pos::default(), directives: vec![], sel: on_widget }));
+                        f.sel = SelSet::new(items);
+                        f
+                    }
+                    _ => return None,
+                };
+                Some(Selection::Field(f))
+            }
+            OpKind::Mutation => {
+                let f = match s.weighted(&[2, 3, 3]) {
+                    0 if allow.root_typename => return Some(self.typename(s, used)),
+                    0 | 1 => {
+                        let mut f = self.keyed(s, used, "bump");
+                        if s.bool() {
+                            f.args.push((Name::new("by"), PVal::new(Val::Int(s.range(0, 9).to_string()))));
+                        }
+                        f
+                    }
+                    _ => {
+                        let mut f = self.keyed(s, used, "makeWidget");
+                        f.sel = self.widget_sel(s);
+                        f
+                    }
+                };
+                self.out.ordinary_fields += 1;
+                Some(Selection::Field(f))
+            }
+            OpKind::Subscription => {
+                self.out.ordinary_fields += 1;
+                let mut f = if s.bool() {
+                    let mut f = Field::new("widgetStream");
+                    f.sel = self.widget_sel(s);
+                    f
+                } else {
+                    Field::new("ticks")
+                };
+                if s.chance(1, 3) {
+                    f.alias = Some(Name::new("k1"));
+                }
+                Some(Selection::Field(f))
+            }
+        }
+    }
+    /// selections on the root type; `used` = response keys already taken at the root level
+    fn root_items(&mut self, s: &mut dyn Src, op: OpKind, allow: &Allow, used: &mut Vec<String>, depth: usize) -> Vec<Selection> {
+        let root = root_name(op);
+        let n = 1 + s.choose(4);
+        let mut items = vec![];
+        for _ in 0..n {
+            if depth < 2 && s.chance(1, 5) {
+                let inner = self.root_items(s, op, allow, used, depth + 1);
+                self.out.fragments += 1;
+                if s.bool() {
+                    let cond = if s.chance(1, 3) { None } else { Some(Name::new(root)) };
+                    items.push(Selection::Inline(Inline { pos: Pos::default(), cond, cond_pos: Pos::default(), directives: vec![], sel: SelSet::new(inner) }));
+                } else {
+                    let name = format!("F{}", self.frags.len() + 1);
+                    self.frags.push(FragDef { pos: Pos::default(), name: Name::new(name.clone()), cond: Name::new(root), cond_pos: Pos::default(), directives: vec![], sel: SelSet::new(inner) });
+                    items.push(Selection::Spread(Spread { pos: Pos::default(), name: Name::new(name), directives: vec![] }));
+                }
+                continue;
+            }
+            if let Some(x) = self.root_field(s, op, allow, used) {
+                items.push(x);
+            }
+        }
+        if items.is_empty() {
+            // the simplest selection of the root
+            let f = match op {
+                OpKind::Query => self.keyed(s, used, "count"),
+                OpKind::Mutation => self.keyed(s, used, "bump"),
+                OpKind::Subscription => Field::new("ticks"),
+            };
+            self.out.ordinary_fields += 1;
+            items.push(Selection::Field(f));
+        }
+        items
+    }
+}
+
+fn root_name(op: OpKind) -> &'static str {
+    match op {
+        OpKind::Query => "Query",
+        OpKind::Mutation => "Mutation",
+        OpKind::Subscription => "Subscription",
+    }
+}
+
+fn gen_doc(s: &mut dyn Src, op: OpKind, allow: &Allow) -> GenDoc {
+    let mut g = G {
+        next: 0,
+        out: GenDoc { doc: Doc::default(), service_keys: vec![], entity_keys: vec![], introspects: false, meta_fields: 0, ordinary_fields: 0, typenames: 0, fragments: 0 },
+        frags: vec![],
+    };
+    let mut used = vec![];
+    let items = if op == OpKind::Subscription {
+        // exactly one root field, and no introspection field, is what the specification allows here
+        vec![g.root_field(s, op, allow, &mut used).unwrap()]
+    } else {
+        g.root_items(s, op, allow, &mut used, 0)
+    };
+    let explicit = op != OpKind::Query || s.bool();
+    let name = if explicit && s.chance(1, 3) { Some(Name::new("Op")) } else { None };
+    let mut defs = vec![Def::Op(OpDef { pos: Pos::default(), explicit, kind: op, name, vars: vec![], directives: vec![], sel: SelSet::new(items) })];
+    defs.extend(g.frags.drain(..).map(Def::Frag));
+    g.out.doc = Doc { defs };
+    g.out
+}
+
+// ------------------------------------------------------------------------------------------------------------
+// oracle
+
+fn child_type(parent: &str, field: &str) -> &'static str {
+    match (parent, field) {
+        (_, "widget") | (_, "widgets") | (_, "makeWidget") | (_, "widgetStream") | (_, "_entities") => "Widget",
+        (_, "__schema") => "__Schema",
+        (_, "__type") | ("__Schema", _) => "__Type",
+        ("__Type", "fields") => "__Field",
+        ("__Type", "enumValues") => "__EnumValue",
+        ("__Type", "inputFields") => "__InputValue",
+        (_, "_service") => "_Service",
+        _ => "?",
+    }
+}
+
+/// Wherever an object is present in the data, every `__typename` selected on it is present and names its type.
+fn check_typenames(doc: &Doc, sel: &SelSet, parent: &str, data: &J, bad: &mut Vec<String>, seen: &mut usize) {
+    for item in &sel.items {
+        match item {
+            Selection::Field(f) if f.name.s == "__typename" => match data.get(f.key()) {
+                Some(J::String(t)) if t == parent => *seen += 1,
+                other => bad.push(format!("{}: __typename of a {} is {}", f.key(), parent, other.map_or("absent".to_string(), |o| o.to_string()))),
+            },
+            Selection::Field(f) if !f.sel.items.is_empty() => {
+                let ct = child_type(parent, &f.name.s);
+                match data.get(f.key()) {
+                    Some(o @ J::Object(_)) => check_typenames(doc, &f.sel, ct, o, bad, seen),
+                    Some(J::Array(a)) => a.iter().filter(|x| x.is_object()).for_each(|x| check_typenames(doc, &f.sel, ct, x, bad, seen)),
+                    _ => {}
+                }
+            }
+            Selection::Field(_) => {}
+            Selection::Inline(i) => {
+                if i.cond.as_ref().map_or(true, |c| c.s == parent) {
+                    check_typenames(doc, &i.sel, parent, data, bad, seen)
+                }
+            }
+            Selection::Spread(sp) => {
+                if let Some(fr) = doc.frag(&sp.name.s) {
+                    if fr.cond.s == parent {
+                        check_typenames(doc, &fr.sel, parent, data, bad, seen)
+                    }
+                }
+            }
+        }
+    }
+}
+
+#[derive(Debug)]
+enum Dev {
+    /// schema metadata in a response although introspection is disabled: root keys whose value carries it
+    Leak { keys: Vec<String>, in_errors: bool },
+    /// resolvers ran although the schema / request is introspection-only
+    Ran(Vec<String>),
+    Typename(Vec<String>),
+    NoData(String),
+}
+
+struct Outcome {
+    devs: Vec<Dev>,
+    metadata_seen: bool,
+    resolvers_ran: bool,
+    typenames_seen: usize,
+    rejected: bool,
+}
+
+fn has_sentinel(j: &J) -> bool {
+    serde_json::to_string(j).unwrap().to_lowercase().contains(SENTINEL)
+}
+
+fn evaluate(cell: Cell, g: &GenDoc, resps: &[Response], log: &[String]) -> Outcome {
+    let mut out = Outcome { devs: vec![], metadata_seen: false, resolvers_ran: !log.is_empty(), typenames_seen: 0, rejected: false };
+    let op = g.doc.ops().next().unwrap();
+    for r in resps {
+        let whole = serde_json::to_value(r).unwrap();
+        let data = whole.get("data").cloned().unwrap_or(J::Null);
+        let errors = whole.get("errors").cloned().unwrap_or(J::Null);
+        if has_sentinel(&whole) {
+            out.metadata_seen = true;
+            if cell.disabled() {
+                let keys = data.as_object().map(|o| o.iter().filter(|(_, v)| has_sentinel(v)).map(|(k, _)| k.clone()).collect()).unwrap_or_default();
+                out.devs.push(Dev::Leak { keys, in_errors: has_sentinel(&errors) });
+            }
+        }
+        if data.is_object() {
+            let mut bad = vec![];
+            check_typenames(&g.doc, &op.sel, root_name(cell.op), &data, &mut bad, &mut out.typenames_seen);
+            if !bad.is_empty() {
+                out.devs.push(Dev::Typename(bad));
+            }
+        } else if cell.op != OpKind::Subscription {
+            // a schema without introspection may reject `__schema` / `__type` as unknown fields: allowed
+            if cell.schema == Mode::Disabled && g.introspects {
+                out.rejected = true;
+            } else {
+                out.devs.push(Dev::NoData(format!("no data: {}", errors)));
+            }
+        }
+    }
+    if cell.op != OpKind::Subscription && resps.len() != 1 {
+        out.devs.push(Dev::NoData(format!("{} responses to one query / mutation", resps.len())));
+    }
+    if cell.only() && !log.is_empty() {
+        out.devs.push(Dev::Ran(log.to_vec()));
+    }
+    out
+}
+
+fn path_root(entry: &str) -> &str {
+    entry.split(' ').nth(1).unwrap_or("").split('.').next().unwrap_or("")
+}
+
+/// which open finding predicts this deviation exactly
+fn attribute(cell: Cell, g: &GenDoc, d: &Dev, open: &[&'static str]) -> Option<&'static str> {
+    let is = |f: &'static str| open.contains(&f);
+    match d {
+        // C19-F1: static schemas answer `_service { sdl }` whatever the introspection mode
+        Dev::Leak { keys, in_errors: false } if is("C19-F1") && cell.flavour == Flavour::Static && !cell.only() && !keys.is_empty() && keys.iter().all(|k| g.service_keys.contains(k)) => Some("C19-F1"),
+        // C19-F2: dynamic schemas run the entity resolver (and the entity's field resolvers) in introspection-only mode
+        Dev::Ran(entries) if is("C19-F2") && cell.flavour == Flavour::Dynamic && !cell.disabled() && cell.op == OpKind::Query && entries.iter().all(|e| g.entity_keys.iter().any(|k| k == path_root(e))) => Some("C19-F2"),
+        // C19-F3: dynamic schemas run subscription resolvers in introspection-only mode
+        Dev::Ran(_) if is("C19-F3") && cell.flavour == Flavour::Dynamic && cell.op == OpKind::Subscription => Some("C19-F3"),
+        // C19-F4: static schemas execute mutations of an introspection-only schema / request on `EmptyMutation`
+        Dev::Typename(bad) if is("C19-F4") && cell.flavour == Flavour::Static && cell.op == OpKind::Mutation && cell.only() && bad.iter().all(|b| b.ends_with("__typename of a Mutation is \"EmptyMutation\"") || b.ends_with("__typename of a Mutation is absent")) => Some("C19-F4"),
+        _ => None,
+    }
+}
+
+fn case_for(servers: &Servers, cell: Cell, s: &mut dyn Src, allow: &Allow, open: &[&'static str]) -> Case {
+    let mut g = gen_doc(s, cell.op, allow);
+    let text = print_plain(&mut g.doc);
+    let via_stream = cell.op == OpKind::Subscription || s.bool();
+    let (resps, log) = servers.run(cell, &text, via_stream);
+    let out = evaluate(cell, &g, &resps, &log);
+    let rendered = format!("{:?} schema, schema-level {:?}, request-level {:?}, via {}: {}", cell.flavour, cell.schema, cell.request, if via_stream { "execute_stream" } else { "execute" }, text);
+    let mut ids: Vec<String> = vec![];
+    let mut unexplained = vec![];
+    for d in &out.devs {
+        match attribute(cell, &g, d, open) {
+            Some(id) => {
+                if !ids.iter().any(|i| i == id) {
+                    ids.push(id.to_string())
+                }
+            }
+            None => unexplained.push(format!("{:?}", d)),
+        }
+    }
+    let c = if !unexplained.is_empty() {
+        Case::fail(rendered, format!("{}; responses {}", unexplained.join("; "), vcore::drive::truncate(&serde_json::to_string(&resps).unwrap(), 1500)))
+    } else if !ids.is_empty() {
+        Case::known(rendered, ids)
+    } else {
+        Case::pass(rendered)
+    };
+    c.nontrivial(cell.disabled() && g.meta_fields > 0 || cell.only() && g.ordinary_fields + g.entity_keys.len() > 0 || g.typenames > 0)
+        .class_if(g.meta_fields > 0 && g.ordinary_fields > 0, "mixes-metadata-and-ordinary-fields")
+        .class_if(out.metadata_seen, "metadata-in-response")
+        .class_if(out.resolvers_ran, "resolvers-ran")
+        .class_if(out.typenames_seen > 0, "typename-resolved")
+        .class_if(out.rejected, "rejected-at-validation")
+        .class_if(g.fragments > 0, "fragments")
+        .class_if(!g.service_keys.is_empty(), "_service")
+        .class_if(!g.entity_keys.is_empty(), "_entities")
+        .class_if(cell.disabled() && g.meta_fields > 0, "disabled-and-asks-for-metadata")
+        .class_if(cell.only() && g.ordinary_fields + g.entity_keys.len() > 0, "only-and-asks-for-resolvers")
+}
+
+pub fn run(ctx: &mut Ctx) {
+    ctx.rule = "every cell of {schema-level enabled/disabled/introspection-only} x {request-level default/disabled/only} x {static derive schema with a federation entity, dynamic schema \
+                with enable_federation + entity resolver} x {query, mutation, subscription} is visited; per cell random documents mix __schema, __type, __typename (root and nested), \
+                _service{sdl}, _entities and ordinary fields with aliases and inline / named fragments; queries and mutations go through execute or execute_stream, subscriptions \
+                through execute_stream. Non-trivial = a disabled cell whose document asks for metadata, an introspection-only cell whose document asks for a resolver, or a document \
+                selecting __typename; distinct by (cell, path, document)"
+        .into();
+    ctx.assume("schema metadata is recognised by sentinel names (types, fields, arguments, enum values, one description, all containing 'sentinel') that exist only in the schemas: documents never select them and resolvers never return them");
+    ctx.assume("a schema built with introspection disabled may reject documents that select __schema / __type as invalid; such a response only has to be free of metadata");
+    ctx.assume("__typename directly on a subscription root is not generated (the specification forbids introspection fields as subscription root fields)");
+    ctx.assume("all user fields are nullable, so that a field that is not resolved in introspection-only mode cannot null the whole response");
+    ctx.assume("what an introspection-only schema answers for ordinary fields (null, error, omission) and whether federation fields still work while introspection is disabled are not checked: the statement only bounds metadata, resolver invocations and __typename");
+
+    let servers = Servers::new();
+    let all: [&'static str; 4] = ["C19-F1", "C19-F2", "C19-F3", "C19-F4"];
+    let open: Vec<&'static str> = all.into_iter().filter(|f| ctx.open(f)).collect();
+    let is = |f: &str| open.iter().any(|o| *o == f);
+    let n = ctx.tier.pick(400u32, 20_000);
+    let mut cells = 0;
+    for flavour in [Flavour::Static, Flavour::Dynamic] {
+        for schema in MODES {
+            for request in MODES {
+                for op in [OpKind::Query, OpKind::Mutation, OpKind::Subscription] {
+                    let cell = Cell { schema, request, flavour, op };
+                    cells += 1;
+                    // constructs of the open findings are kept out of the main stream of the cells they affect …
+                    let f1 = is("C19-F1") && flavour == Flavour::Static && cell.disabled() && op == OpKind::Query;
+                    let f2 = is("C19-F2") && flavour == Flavour::Dynamic && cell.only() && op == OpKind::Query;
+                    let f3 = is("C19-F3") && flavour == Flavour::Dynamic && cell.only() && op == OpKind::Subscription;
+                    let f4 = is("C19-F4") && flavour == Flavour::Static && cell.only() && op == OpKind::Mutation;
+                    let allow = Allow { service: !f1, entities: !f2, root_typename: !f4 };
+                    for (f, id) in [(f1, "C19-F1"), (f2, "C19-F2"), (f3, "C19-F3"), (f4, "C19-F4")] {
+                        if f {
+                            ctx.excluded(id);
+                        }
+                    }
+                    if !f3 {
+                        ctx.stream(&cell.name(), n, 80, |s| case_for(&servers, cell, s, &allow, &[]));
+                    }
+                    // … and exercised by a probe stream that attributes exactly the predicted deviations
+                    if f1 || f2 || f3 || f4 {
+                        let everything = Allow { service: true, entities: true, root_typename: true };
+                        ctx.stream(&format!("probe-{}", cell.name()), n / 2, 80, |s| case_for(&servers, cell, s, &everything, &open));
+                    }
+                    if ctx.violations() > 0 {
+                        return;
+                    }
+                }
+            }
+        }
+    }
+    ctx.exhaustive = Some(true);
+    ctx.note("matrix_cells_visited", serde_json::json!(cells));
+    ctx.floor("disabled-and-asks-for-metadata", 2000);
+    ctx.floor("only-and-asks-for-resolvers", 2000);
+    ctx.floor("metadata-in-response", 500);
+    ctx.floor("resolvers-ran", 2000);
+    ctx.floor("typename-resolved", 2000);
+    ctx.floor("_service", 500);
+    ctx.floor("_entities", 500);
+    ctx.floor("fragments", 1000);
 }
